@@ -20,6 +20,8 @@ func BeginBlocker(ctx sdk.Context, _ abci.RequestBeginBlock, k keeper.Keeper, as
 		if !found {
 			return assettypes.AppIdsDoesntExist
 		}
+		// every shutdown step runs on its own cache context: a step that reports failure after it has
+		// moved coins or written records leaves nothing behind and is taken up again in the next block
 		for _, app := range apps {
 			esmStatus, found := k.GetESMStatus(ctx, app.Id)
 			if !found {
@@ -29,7 +31,9 @@ func BeginBlocker(ctx sdk.Context, _ abci.RequestBeginBlock, k keeper.Keeper, as
 				// Should check if price exists in the band or not. else should skip---- k.market.isPriceValidationActive
 				// to add this check at all abci as well where price is important
 				if !esmStatus.SnapshotStatus {
-					err := k.SnapshotOfPrices(ctx, esmStatus)
+					err := utils.ApplyFuncIfNoError(ctx, func(ctx sdk.Context) error {
+						return k.SnapshotOfPrices(ctx, esmStatus)
+					})
 					if err != nil {
 						continue
 					}
@@ -37,26 +41,34 @@ func BeginBlocker(ctx sdk.Context, _ abci.RequestBeginBlock, k keeper.Keeper, as
 				if ctx.BlockTime().After(esmStatus.EndTime) && esmStatus.SnapshotStatus {
 					esmData, _ := k.GetESMTriggerParams(ctx, esmStatus.AppId)
 					if !esmStatus.VaultRedemptionStatus {
-						err := k.SetUpCollateralRedemptionForVault(ctx, esmStatus.AppId, esmData)
+						err := utils.ApplyFuncIfNoError(ctx, func(ctx sdk.Context) error {
+							return k.SetUpCollateralRedemptionForVault(ctx, esmStatus.AppId, esmData)
+						})
 						if err != nil {
 							continue
 						}
 					}
 					if !esmStatus.StableVaultRedemptionStatus {
-						err := k.SetUpCollateralRedemptionForStableVault(ctx, esmStatus.AppId, esmData)
+						err := utils.ApplyFuncIfNoError(ctx, func(ctx sdk.Context) error {
+							return k.SetUpCollateralRedemptionForStableVault(ctx, esmStatus.AppId, esmData)
+						})
 						if err != nil {
 							continue
 						}
 					}
 
 					if !esmStatus.CollectorTransaction {
-						err := k.SetUpDebtRedemptionForCollector(ctx, esmStatus.AppId)
+						err := utils.ApplyFuncIfNoError(ctx, func(ctx sdk.Context) error {
+							return k.SetUpDebtRedemptionForCollector(ctx, esmStatus.AppId)
+						})
 						if err != nil {
 							continue
 						}
 					}
 					if !esmStatus.ShareCalculation && esmStatus.VaultRedemptionStatus && esmStatus.StableVaultRedemptionStatus && esmStatus.CollectorTransaction {
-						err := k.SetUpShareCalculation(ctx, esmStatus.AppId)
+						err := utils.ApplyFuncIfNoError(ctx, func(ctx sdk.Context) error {
+							return k.SetUpShareCalculation(ctx, esmStatus.AppId)
+						})
 						if err != nil {
 							continue
 						}
